@@ -5,7 +5,6 @@ import (
 	"encoding/json"
 	"fmt"
 	"io"
-	"net"
 	"os"
 	"strings"
 	"sync"
@@ -37,14 +36,7 @@ type codecPair struct {
 	respIS raft.InstallSnapshotResponse
 }
 
-func freeAddr(t testing.TB) string {
-	l, err := net.Listen("tcp", "127.0.0.1:0")
-	if err != nil {
-		t.Fatalf("listen: %v", err)
-	}
-	defer l.Close()
-	return l.Addr().String()
-}
+func freeAddr(t testing.TB) string { return freeAddrF(t) } // addresses in a loopback block of this process (c20_real_test.go)
 
 func newCodecPair(t testing.TB) *codecPair {
 	p := &codecPair{}
